@@ -926,14 +926,20 @@ class HttpProxyPlugin(HttpProtocolHandlerPlugin):
             request_id=self.uid,
             event_name=eventNames.REQUEST_COMPLETE,
             event_payload={
-                'url': text_(self.request.path)
+                # Octets outside UTF-8 (e.g. latin-1 header values) are valid
+                # in HTTP, reporting them must not fail the request.
+                'url': text_(self.request.path, errors='backslashreplace')
                 if self.request.is_https_tunnel
-                else 'http://%s:%d%s' % (text_(self.request.host), self.request.port, text_(self.request.path)),
-                'method': text_(self.request.method),
+                else 'http://%s:%d%s' % (
+                    text_(self.request.host, errors='backslashreplace'),
+                    self.request.port,
+                    text_(self.request.path, errors='backslashreplace'),
+                ),
+                'method': text_(self.request.method, errors='backslashreplace'),
                 'headers': {}
                 if not self.request.headers else
                 {
-                    text_(k): text_(v[1])
+                    text_(k, errors='backslashreplace'): text_(v[1], errors='backslashreplace')
                     for k, v in self.request.headers.items()
                 },
                 'body': text_(self.request.body, errors='ignore')
@@ -964,7 +970,7 @@ class HttpProxyPlugin(HttpProtocolHandlerPlugin):
                 'headers': {}
                 if not self.response.headers else
                 {
-                    text_(k): text_(v[1])
+                    text_(k, errors='backslashreplace'): text_(v[1], errors='backslashreplace')
                     for k, v in self.response.headers.items()
                 },
             },
